@@ -2138,8 +2138,13 @@ class LogicalFile:
             elif isinstance(value, EFLRItem):
                 yield value
 
+        origin_references = [o.origin_reference for o in self.origins]
+
         for eflr_set in own_sets:
             for item in eflr_set.get_all_eflr_items():
+                if item.origin_reference not in origin_references:
+                    raise RuntimeError(f"Origin reference {item.origin_reference} of {item} is not that of any origin "
+                                       f"of the logical file (references of the origins: {origin_references})")
                 for attr in item.attributes.values():
                     for referred_item in referred_items(attr.value):
                         if not belongs_here(referred_item):
